@@ -243,12 +243,15 @@ impl<'a> Checker<'a> {
             // values
             for d in set.data.iter().filter(|d| d.live) {
                 if let Some(item) = ds.annotationdata(dh(d.handle)) {
-                    if *item.value() != d.value.to_datavalue() {
+                    let want = d.value.to_datavalue();
+                    // equality of datetimes compares instants only; the written form (what a user reads and what is
+                    // exported) also has the offset, so the textual forms must agree as well
+                    if *item.value() != want || item.value().to_string() != want.to_string() {
                         self.push(
                             "C10",
                             "mismatch",
                             "data.value",
-                            format!("set {} data {}: expected {:?} got {:?}", set.id, d.handle, d.value, item.value()),
+                            format!("set {} data {}: expected {:?} (written {:?}) got {:?} (written {:?})", set.id, d.handle, d.value, want.to_string(), item.value(), item.value().to_string()),
                         );
                     }
                 }
